@@ -63,6 +63,11 @@ pub enum WStep {
     /// value is released at once (create) / the current value is released afterwards (update)
     McpServer { node: u64, id: u8, k: u8, old: bool, publish: bool },
     McpServerDel { node: u64, id: u8 },
+    /// 3 nodes (executed by C19): the leader is cut off while clients keep publishing `during` configurations through it
+    /// (it draws history ids for writes that never commit), the others elect a leader and take `after` publishes, the
+    /// partition heals; then, if `back` > 0, the second leader is cut off in turn so that another node (often the first
+    /// leader) leads again and takes `back` publishes
+    LeaderHandover { during: u8, after: u8, back: u8 },
 }
 
 /// namespace ids: two of the four are tenants that configurations are published in, so that user-created namespaces hold
@@ -582,13 +587,13 @@ pub async fn do_step(n: &NodeH, st: &WStep, m: &mut WModel, timeout_ms: u64) -> 
                 Some(Err(e)) => OpOutcome::Err(e.to_string()),
             }
         }
-        WStep::Restart { .. } | WStep::KillRestart { .. } | WStep::PlantSnapshot { .. } => OpOutcome::Ok,
+        WStep::Restart { .. } | WStep::KillRestart { .. } | WStep::PlantSnapshot { .. } | WStep::LeaderHandover { .. } => OpOutcome::Ok,
     }
 }
 
 pub fn step_node(st: &WStep) -> u64 {
     match st {
         WStep::CfgSet { node, .. } | WStep::CfgDel { node, .. } | WStep::NsSet { node, .. } | WStep::NsDel { node, .. } | WStep::UserAdd { node, .. } | WStep::UserUpd { node, .. } | WStep::UserDel { node, .. } | WStep::SeqNext { node, .. } | WStep::SeqRange { node, .. } | WStep::SeqBurst { node, .. } | WStep::PInstReg { node, .. } | WStep::PInstDel { node, .. } | WStep::Restart { node } | WStep::KillRestart { node } | WStep::Import { node, .. } | WStep::PlantSnapshot { node, .. } | WStep::McpTool { node, .. } | WStep::McpToolDel { node, .. } | WStep::McpServer { node, .. } | WStep::McpServerDel { node, .. } => *node,
-        WStep::Advance { .. } => 0,
+        WStep::Advance { .. } | WStep::LeaderHandover { .. } => 0,
     }
 }
